@@ -24,8 +24,12 @@ sys.path.insert(0, HERE)
 import engine_k as K  # noqa: E402
 import registry  # noqa: E402
 
-BUILD = "/verif/.build"
-EVID = os.path.join(HERE, "evidence")
+import paths  # noqa: E402
+
+BUILD = paths.BUILD
+# evidence of the registered checks (against /repo) goes to /verif/evidence; a run against another
+# root (development: seeded changes) writes its evidence under its own build directory
+EVID = paths.EVIDENCE_DIR or os.path.join(HERE, "evidence")
 TOTAL_MEM_GB = 48
 MAX_JOBS = 10
 
@@ -188,7 +192,7 @@ def replay_k(prop, o, res):
     rdir = os.path.join(BUILD, "replay", prop, short)
     shutil.rmtree(rdir, ignore_errors=True)
     os.makedirs(rdir, exist_ok=True)
-    cdir = registry.CRATES[o["crate"]]["dir"]
+    cdir = paths.crate_copy(registry.CRATES[o["crate"]]["dir"], o["crate"] + "-replay-src")
     cp = os.path.join(rdir, "crate")
     shutil.copytree(cdir, cp, ignore=shutil.ignore_patterns("target"))
     us = []
